@@ -372,9 +372,21 @@ BUDGET = {
 }
 
 
+def _fuzz_direct_strategy():
+    import logging
+
+    logging.getLogger("codemodder").setLevel(logging.CRITICAL)
+    return direct_case([i for i, _ in real_registry()["reg"]])
+
+
+# coverage-guided stage: same strategy, same oracle, bytes chosen by libFuzzer (cmv/fuzz.py)
+FUZZ_TARGETS = {"direct": (_fuzz_direct_strategy, lambda c, stats: eval_direct(c, stats))}
+FUZZ_BUDGET = {"quick": (1, 2000), "thorough": (8, 100000)}
+
+
 def shards(tier, seed):
     b = BUDGET[tier]
-    out = []
+    out = [{"kind": "fuzz", "runs": FUZZ_BUDGET[tier][1], "seed": seed * 1000 + 900 + i} for i in range(FUZZ_BUDGET[tier][0])]
     for i in range(16):
         out.append({"kind": "direct", "n": b["direct"] // 16, "seed": seed * 1000 + i})
     for i in range(16):
@@ -386,6 +398,10 @@ def shards(tier, seed):
 
 def run_shard(spec):
     stats = core.Stats()
+    if spec["kind"] == "fuzz":
+        from .. import fuzz
+
+        return fuzz.fuzz_shard(__name__, "direct", spec["runs"], spec["seed"])
     if spec["kind"] == "direct":
         import logging
 
